@@ -2,6 +2,7 @@
 C18 — The dynamic completion engine never fails and only offers valid continuations.
 -/
 import ClapModel
+import ClapProofs.C13
 namespace Clap.C18
 open Clap Engine
 
@@ -181,6 +182,52 @@ theorem subcommand_candidate_resolves (c : ECmd) (v : Bytes) (cd : Cand) (h : cd
   rw [List.find?_isSome]
   refine ⟨sc, hsc, ?_⟩
   rcases hm with hm | hm <;> simp [hm]
+
+/-! #### short-flag clusters -/
+
+/-- walking a valid-UTF-8 cluster in which no flag takes a value reads the whole cluster -/
+theorem parseShortflags_all (c : ECmd) : ∀ (fuel : Nat) (s : ShortFlags) (lead l : Bytes) (r : ShortFlags),
+    s.invalid = none → s.chars.length < fuel → parseShortflags c fuel s lead = (l, none, r) → l = lead ++ s.chars.flatten := by
+  intro fuel
+  induction fuel with
+  | zero => intro s lead l r _ hlen _; omega
+  | succ n ih =>
+    intro s lead l r hinv hlen h
+    simp only [parseShortflags] at h
+    cases hc : s.chars with
+    | nil =>
+      simp only [ShortFlags.nextFlag, hc, hinv] at h
+      simp at h
+      simp [h.1]
+    | cons ch cs =>
+      simp only [ShortFlags.nextFlag, hc] at h
+      have hlen' : cs.length < n := by rw [hc] at hlen; simp at hlen; omega
+      cases hf : findShort c ch with
+      | none =>
+        simp only [hf] at h
+        have := ih { s with chars := cs, off := s.off + ch.length } (lead ++ ch) l r hinv hlen' h
+        simp [this]
+      | some a =>
+        simp only [hf] at h
+        split at h
+        · simp at h
+        · have := ih { s with chars := cs, off := s.off + ch.length } (lead ++ ch) l r hinv hlen' h
+          simp [this]
+
+/-- **every short-flag candidate extends the word**: for a word `-abc` (valid UTF-8) none of whose flags
+takes a value, each candidate is the word followed by one more flag -/
+theorem short_candidates_extend (c : ECmd) (tok : Bytes) (sf : ShortFlags) (hs : ParsedArg.toShort tok = some sf)
+    (hutf : sf.invalid = none) (lead : Bytes) (rest : ShortFlags)
+    (hp : parseShortflags c (sf.chars.length + 1) sf [] = (lead, none, rest))
+    (cd : Cand) (hcd : cd ∈ shortCands c ([Bytes.dash] ++ lead)) : Bytes.startsWith cd.value tok = true := by
+  have hall := parseShortflags_all c _ sf [] lead rest hutf (Nat.lt_succ_self _) hp
+  obtain ⟨htok, _, _⟩ := C13.toShort_spec tok sf hs
+  have hun : C13.unread sf = sf.chars.flatten := by simp [C13.unread, hutf]
+  simp only [shortCands, List.mem_flatMap, List.mem_map] at hcd
+  obtain ⟨a, _, s, _, rfl⟩ := hcd
+  rw [htok, hun, hall]
+  simp only [List.nil_append, List.singleton_append, List.cons_append]
+  exact startsWith_append (Bytes.dash :: sf.chars.flatten) s
 
 /-! #### completeness: visible items that extend the word are offered -/
 
